@@ -148,7 +148,7 @@ Section WithCen.
   Proof. apply point_xy_point2d. Qed.
 End WithCen.
 
-(* ================================================================ sortAndUniquifyFloats = qsort *)
+(* ================================================================ sorted intercepts *)
 Fixpoint ssorted (l : list Q) : Prop :=
   match l with
   | [] => True
@@ -230,6 +230,25 @@ Proof.
   rewrite memq_qsort. apply negb_true_iff in Hx. rewrite Hx, (IH Hl).
   unfold cgt. cbn [filter]. destruct (qltb m x); reflexivity.
 Qed.
+(* without equal entries, sorting and sorting-with-de-duplication coincide *)
+Lemma qisert_qinsert x l : memq x l = false -> qisert x l = qinsert x l.
+Proof.
+  induction l as [|y r IH]; [reflexivity|]. unfold memq. cbn [existsb qisert qinsert]. intros H.
+  apply orb_false_iff in H. destruct H as [Hxy Hr]. apply Qeq_bool_false_iff in Hxy.
+  destruct (x ?= y) eqn:E.
+  - apply Qeq_alt in E. contradiction.
+  - apply Qlt_alt in E. assert (Qle_bool x y = true) as -> by (apply Qle_bool_iff; lra). reflexivity.
+  - apply Qgt_alt in E. assert (Qle_bool x y = false) as ->.
+    { apply not_true_iff_false. intro H. apply Qle_bool_iff in H. lra. }
+    rewrite (IH Hr). reflexivity.
+Qed.
+Lemma isort_qsort l : nodupq l = true -> isort l = qsort l.
+Proof.
+  induction l as [|x l IH]; [reflexivity|]. cbn [nodupq isort qsort fold_right]. intros H. apply andb_prop in H.
+  destruct H as [Hx Hl]. fold (isort l). fold (qsort l). rewrite (IH Hl). apply qisert_qinsert.
+  rewrite memq_qsort. apply negb_true_iff in Hx. exact Hx.
+Qed.
+
 Lemma cgt_app m a b : cgt m (a ++ b) = (cgt m a + cgt m b)%nat.
 Proof. unfold cgt. rewrite filter_app, app_length. reflexivity. Qed.
 
@@ -597,7 +616,7 @@ Lemma poly_row_inv y ri : poly_row y = Some ri ->
   exists shell rest p0 pr x0 x1,
     poly_rings y = shell :: rest /\ line_pts shell = p0 :: pr /\
     r_bis ri = ((x0, r_y ri), (x1, r_y ri)) /\
-    r_xs ri = qsort (raw_intercepts (r_bis ri) (poly_rings y)) /\
+    r_xs ri = isort (raw_intercepts (r_bis ri) (poly_rings y)) /\
     ring_pts_off_row (r_y ri) (poly_rings y).
 Proof.
   unfold poly_row. destruct (poly_rings y) as [|shell rest] eqn:Er; [discriminate|].
@@ -674,12 +693,12 @@ Theorem pos_areal_interior_lemma (y : polyT Q) (ri : row_info) (p : pt) :
 Proof.
   intros Hrow Hreg Hsp Hnd Hnest Hp.
   destruct (poly_row_inv y ri Hrow) as [shell [rest [p0 [pr [x0 [x1 [Er [Ep [Ebis [Exs Hoff]]]]]]]]]].
+  rewrite (isort_qsort _ Hnd) in Exs.
   (* the returned point *)
   unfold point_on_area in Hp. rewrite Er, Ep, Hrow, Hreg in Hp.
   destruct (r_xs ri) as [|a [|b rest']] eqn:Exs'; [discriminate|discriminate|].
-  destruct (best_pair a b rest') as [A B] eqn:Ebp. cbn [fst point_xy xy_point point_c option_map vpt vx vy] in Hp.
-  injection Hp as <-.
-  set (y0 := r_y ri) in *. set (mx := (A + B) / 2).
+  destruct (best_pair a b rest') as [A B] eqn:Ebp.
+  set (y0 := r_y ri) in *.
   (* the interval *)
   assert (Hev : even_pair (a :: b :: rest') A B).
   { pose proof (best_pair_even_pair rest' (a :: b :: rest') [a; b] a b eq_refl eq_refl) as G.
@@ -687,7 +706,13 @@ Proof.
   assert (Hss : ssorted (a :: b :: rest')) by (rewrite Exs; apply qsort_ssorted).
   assert (Hlen : Nat.even (length (a :: b :: rest')) = true).
   { unfold xs_regular in Hreg. apply andb_prop in Hreg. destruct Hreg as [_ H]. exact H. }
-  destruct (even_pair_mid _ A B Hss Hlen Hev) as [_ [_ [Hodd Hmem]]]. fold mx in Hodd, Hmem.
+  destruct (even_pair_mid _ A B Hss Hlen Hev) as [HAm [HmB [Hodd Hmem]]].
+  assert (HAB : Qeq_bool A B = false).
+  { apply Qeq_bool_false_iff. intro HE. pose proof (Qlt_trans _ _ _ HAm HmB) as Hlt. rewrite HE in Hlt.
+    exact (Qlt_irrefl _ Hlt). }
+  rewrite HAB in Hp. cbn [fst point_xy xy_point point_c option_map vpt vx vy] in Hp.
+  injection Hp as <-.
+  set (mx := (A + B) / 2) in *.
   rewrite Exs in Hodd, Hmem. rewrite cgt_qsort in Hodd by exact Hnd. rewrite memq_qsort in Hmem.
   rewrite Ebis in *. cbn [fst snd] in Hsp.
   (* parity over all rings, and not on any ring *)
@@ -728,10 +753,7 @@ Lemma inner_points_of_empty (l : lineT Q) : line_empty l = true -> inner_points 
 Proof. destruct l as [ct [|a r]]; [reflexivity|discriminate]. Qed.
 
 Lemma mpoly_pos_fold_empty ys : forall st,
-  (forall y, In y ys -> poly_empty y = true) ->
-  fold_left (fun (st : pointT Q * Q) y =>
-               let '(p, w) := point_on_area y in
-               if point_empty p then st else if qltb (snd st) w then (p, w) else st) ys st = st.
+  (forall y, In y ys -> poly_empty y = true) -> fold_left mp_step ys st = st.
 Proof.
   induction ys as [|y ys IH]; intros st H; [reflexivity|]. cbn [fold_left].
   rewrite IH by (intros; apply H; right; assumption).
@@ -781,49 +803,38 @@ Section WithCen2.
   (* ---- non-empty input gives a point *)
   Hypothesis cen_total : forall x, is_empty x = false -> cen x <> None.
 
-  Lemma row_regular_width y : row_regular y = true ->
-    point_empty (fst (point_on_area y)) = false /\ 0 < snd (point_on_area y).
-  Proof.
-    unfold row_regular. destruct (poly_row y) as [ri|] eqn:Hrow; [|discriminate]. intros Hreg.
-    destruct (poly_row_inv y ri Hrow) as [shell [rest [p0 [pr [x0 [x1 [Er [Ep [Ebis [Exs Hoff]]]]]]]]]].
-    unfold point_on_area. rewrite Er, Ep, Hrow, Hreg.
-    destruct (r_xs ri) as [|a [|b rest']] eqn:Exs'; [discriminate|discriminate|].
-    destruct (best_pair a b rest') as [A B] eqn:Ebp. cbn [fst snd]. split; [reflexivity|].
-    assert (Hev : even_pair (a :: b :: rest') A B).
-    { pose proof (best_pair_even_pair rest' (a :: b :: rest') [a; b] a b eq_refl eq_refl) as G.
-      rewrite Ebp in G. apply G. exists [], rest'. split; reflexivity. }
-    assert (Hss : ssorted (a :: b :: rest')) by (rewrite Exs; apply qsort_ssorted).
-    assert (Hlen : Nat.even (length (a :: b :: rest')) = true).
-    { unfold xs_regular in Hreg. apply andb_prop in Hreg. destruct Hreg as [_ H]. exact H. }
-    destruct (even_pair_mid _ A B Hss Hlen Hev) as [H1 [H2 _]]. lra.
-  Qed.
-
-  Definition mp_step (st : pointT Q * Q) (y : polyT Q) : pointT Q * Q :=
-    let '(p, w) := point_on_area y in
-    if point_empty p then st else if qltb (snd st) w then (p, w) else st.
-  Definition mp_inv (st : pointT Q * Q) : Prop := 0 < snd st -> point_empty (fst st) = false.
-
-  Lemma mp_step_inv st y : mp_inv st -> mp_inv (mp_step st y).
-  Proof.
-    unfold mp_inv, mp_step. intros H. destruct (point_on_area y) as [p w].
-    destruct (point_empty p) eqn:Ep; [exact H|]. destruct (qltb (snd st) w); [intros _; exact Ep|exact H].
-  Qed.
   Lemma mp_step_keeps st y : point_empty (fst st) = false -> point_empty (fst (mp_step st y)) = false.
   Proof.
     unfold mp_step. intros H. destruct (point_on_area y) as [p w].
-    destruct (point_empty p) eqn:Ep; [exact H|]. destruct (qltb (snd st) w); [exact Ep|exact H].
+    destruct (point_empty p) eqn:Ep; [exact H|]. destruct (point_empty (fst st) || qltb (snd st) w); [exact Ep|exact H].
   Qed.
   Lemma mp_fold_keeps ys : forall st, point_empty (fst st) = false -> point_empty (fst (fold_left mp_step ys st)) = false.
   Proof. induction ys as [|y ys IH]; intros st H; [exact H|]. apply IH, mp_step_keeps, H. Qed.
-  Lemma mp_fold_picks ys : forall st, mp_inv st -> existsb row_regular ys = true ->
+  (* a member with a non-empty candidate makes the result non-empty *)
+  Lemma mp_fold_picks ys : forall st,
+    existsb (fun y => negb (point_empty (fst (point_on_area y)))) ys = true ->
     point_empty (fst (fold_left mp_step ys st)) = false.
   Proof.
-    induction ys as [|y ys IH]; intros st Hinv Hex; [discriminate|]. cbn [existsb fold_left] in *.
-    destruct (row_regular y) eqn:Ey.
-    - apply mp_fold_keeps. destruct (row_regular_width y Ey) as [Hne Hw].
-      unfold mp_step. destruct (point_on_area y) as [p w]. cbn [fst snd] in *. rewrite Hne.
-      destruct (qltb (snd st) w) eqn:E; [exact Hne|]. apply qltb_false_iff in E. apply Hinv. lra.
-    - apply IH; [apply mp_step_inv; exact Hinv|exact Hex].
+    induction ys as [|y ys IH]; intros st Hex; [discriminate|]. cbn [existsb fold_left] in *.
+    destruct (point_empty (fst (point_on_area y))) eqn:Ey; cbn [negb orb] in Hex.
+    - apply IH. exact Hex.
+    - apply mp_fold_keeps. unfold mp_step. destruct (point_on_area y) as [p w]. cbn [fst] in Ey. rewrite Ey.
+      destruct (point_empty (fst st)) eqn:Es; cbn [orb]; [exact Ey|].
+      destruct (qltb (snd st) w); [exact Ey|exact Es].
+  Qed.
+
+  (* a well-formed non-empty polygon always yields a point *)
+  Lemma point_on_area_nonempty (y : polyT Q) :
+    poly_wf y = true -> poly_empty y = false -> point_empty (fst (point_on_area y)) = false.
+  Proof.
+    intros Hwf He. destruct y as [ct [|sh rs]]; [discriminate|]. unfold poly_wf in Hwf. cbn [poly_rings forallb] in Hwf.
+    apply andb_prop in Hwf. destruct Hwf as [Hsh _]. apply ring_ok_nonempty in Hsh.
+    unfold point_on_area. cbn [poly_rings]. destruct sh as [c [|v vs]]; [discriminate|].
+    unfold line_pts. cbn [line_vs map].
+    destruct (poly_row _) as [ri|]; [|reflexivity].
+    destruct (xs_regular (r_xs ri)); [|reflexivity].
+    destruct (r_xs ri) as [|a [|b rest]]; try reflexivity. destruct (best_pair a b rest) as [A B].
+    destruct (Qeq_bool A B); reflexivity.
   Qed.
 
   Lemma exists_nonempty {A} (f : A -> bool) l : forallb f l = false -> exists x, In x l /\ f x = false.
@@ -834,10 +845,10 @@ Section WithCen2.
   Qed.
 
   Lemma leaf_pos_of_nonempty (g : geom) :
-    geom_wf g = true -> pos_dom g = true -> (forall ct gs, g <> GColl ct gs) ->
+    geom_wf g = true -> (forall ct gs, g <> GColl ct gs) ->
     is_empty g = false -> point_empty (leaf_pos cen g) = false.
   Proof.
-    intros Hwf Hdom Hnc He. pose proof (cen_total g He) as Hc.
+    intros Hwf Hnc He. pose proof (cen_total g He) as Hc.
     destruct g; cbn [is_empty leaf_pos geom_wf] in *.
     - rewrite point_empty_point2d. exact He.
     - unfold line_pos. destruct (cen (GLine l)) as [t|]; [|congruence].
@@ -845,13 +856,7 @@ Section WithCen2.
       + apply negb_true_iff in E1. exact E1.
       + apply consider_all_picks. exists (point2d (start_point l)). split; [left; reflexivity|].
         rewrite point_empty_point2d, start_point_empty. exact He.
-    - destruct p as [ct [|sh rs]]; [discriminate|]. unfold poly_wf in Hwf. cbn [poly_rings forallb] in Hwf.
-      apply andb_prop in Hwf. destruct Hwf as [Hsh _]. apply ring_ok_nonempty in Hsh.
-      unfold point_on_area. cbn [poly_rings]. destruct sh as [c [|v vs]]; [discriminate|].
-      unfold line_pts. cbn [line_vs map].
-      destruct (poly_row _) as [ri|]; [|reflexivity].
-      destruct (xs_regular (r_xs ri)); [|reflexivity].
-      destruct (r_xs ri) as [|a [|b rest]]; try reflexivity. destruct (best_pair a b rest). reflexivity.
+    - apply point_on_area_nonempty; assumption.
     - unfold mpoint_pos. destruct (cen (GMPoint ct ps)) as [t|]; [|congruence].
       apply consider_all_picks. destruct (exists_nonempty _ _ He) as [q [Hq Hne]].
       exists (point2d q). split; [apply in_map; exact Hq|rewrite point_empty_point2d; exact Hne].
@@ -862,11 +867,9 @@ Section WithCen2.
         exists (point2d (start_point l)). split.
         * apply in_flat_map. exists l. split; [exact Hl|left; reflexivity].
         * rewrite point_empty_point2d, start_point_empty. exact Hne.
-    - unfold pos_dom in Hdom. cbn [leaves forallb is_empty] in Hdom. rewrite He in Hdom. cbn [orb] in Hdom.
-      rewrite andb_true_r in Hdom. unfold mpoly_pos.
-      change (fun (st : pointT Q * Q) y => let '(p, w) := point_on_area y in
-               if point_empty p then st else if qltb (snd st) w then (p, w) else st) with mp_step.
-      apply mp_fold_picks; [|exact Hdom]. unfold mp_inv. cbn [snd]. intros H. lra.
+    - unfold mpoly_pos. apply mp_fold_picks. destruct (exists_nonempty _ _ He) as [y [Hy Hne]].
+      apply existsb_exists. exists y. split; [exact Hy|]. rewrite forallb_forall in Hwf.
+      rewrite (point_on_area_nonempty y (Hwf y Hy) Hne). reflexivity.
     - exfalso. eapply Hnc. reflexivity.
   Qed.
 End WithCen2.
@@ -972,20 +975,11 @@ Section WithCen3.
     cbn [geom_wf] in Hwf. rewrite forallb_forall in Hwf. apply (H x Hx (Hwf x Hx)). exact Hl.
   Qed.
 
-  Lemma pos_dom_leaf (g l : geom) : pos_dom g = true -> In l (leaves g) -> pos_dom l = true.
-  Proof.
-    unfold pos_dom. intros H Hl. rewrite forallb_forall in H. specialize (H l Hl).
-    pose proof (leaves_not_coll g l Hl) as Hn.
-    destruct l; cbn [leaves forallb]; try reflexivity.
-    - rewrite H. reflexivity.
-    - exfalso. eapply Hn. reflexivity.
-  Qed.
-
   Theorem pos_empty_iff_lemma (g : geom) :
-    geom_wf g = true -> pos_dom g = true -> point_empty (pos cen g) = is_empty g.
+    geom_wf g = true -> point_empty (pos cen g) = is_empty g.
   Proof.
-    intros Hwf Hdom. destruct (is_empty g) eqn:He; [apply pos_of_empty; exact He|].
-    assert (Hleaf : forall x, geom_wf x = true -> pos_dom x = true -> (forall ct gs, x <> GColl ct gs) ->
+    intros Hwf. destruct (is_empty g) eqn:He; [apply pos_of_empty; exact He|].
+    assert (Hleaf : forall x, geom_wf x = true -> (forall ct gs, x <> GColl ct gs) ->
                     is_empty x = false -> point_empty (leaf_pos cen x) = false)
       by (intros; apply leaf_pos_of_nonempty; assumption).
     destruct g; try (apply Hleaf; auto; intros; discriminate).
@@ -995,57 +989,42 @@ Section WithCen3.
     destruct (mdn_attained (leaves g) (nonempty_leaf g He)) as [l [Hl [Hle Hd]]].
     exists (leaf_pos cen l). split.
     - apply in_map. unfold coll_candidates. apply filter_In. split; [exact Hl|apply Nat.eqb_eq; exact Hd].
-    - apply Hleaf; [apply (geom_wf_leaves g Hwf); exact Hl|apply (pos_dom_leaf g); assumption|
-                    apply (leaves_not_coll g); exact Hl|exact Hle].
+    - apply Hleaf; [apply (geom_wf_leaves g Hwf); exact Hl|apply (leaves_not_coll g); exact Hl|exact Hle].
   Qed.
 End WithCen3.
 
 (* ================================================================ MultiPolygon: the chosen member *)
 Lemma mpoly_pos_member ys p :
-  point_xy (mpoly_pos ys) = Some p ->
-  exists y, In y ys /\ mpoly_pos ys = fst (point_on_area y) /\ 0 < snd (point_on_area y).
+  point_xy (mpoly_pos ys) = Some p -> exists y, In y ys /\ mpoly_pos ys = fst (point_on_area y).
 Proof.
   unfold mpoly_pos.
-  change (fun (st : pointT Q * Q) y => let '(p, w) := point_on_area y in
-           if point_empty p then st else if qltb (snd st) w then (p, w) else st) with mp_step.
-  assert (G : forall ys st, 0 <= snd st ->
-              fold_left mp_step ys st = st \/
-              exists y, In y ys /\ fold_left mp_step ys st = point_on_area y /\ 0 < snd (point_on_area y)).
-  { induction ys0 as [|y ys0 IH]; intros st Hst; [left; reflexivity|]. cbn [fold_left].
-    assert (Hstep : (mp_step st y = st) \/ (mp_step st y = point_on_area y /\ 0 < snd (point_on_area y))).
+  assert (G : forall ys st, fold_left mp_step ys st = st \/
+              exists y, In y ys /\ fold_left mp_step ys st = point_on_area y).
+  { induction ys0 as [|y ys0 IH]; intros st; [left; reflexivity|]. cbn [fold_left].
+    assert (Hstep : (mp_step st y = st) \/ (mp_step st y = point_on_area y)).
     { unfold mp_step. destruct (point_on_area y) as [q w]. destruct (point_empty q); [left; reflexivity|].
-      destruct (qltb (snd st) w) eqn:E; [right|left; reflexivity]. apply qltb_iff in E. cbn [snd]. split; [reflexivity|lra]. }
-    destruct Hstep as [Es|[Es Hw]].
-    - rewrite Es. destruct (IH st Hst) as [E|[y' [Hy' E]]]; [left; exact E|right; exists y'; split; [right; exact Hy'|exact E]].
+      destruct (point_empty (fst st) || qltb (snd st) w); [right|left]; reflexivity. }
+    destruct Hstep as [Es|Es].
+    - rewrite Es. destruct (IH st) as [E|[y' [Hy' E]]]; [left; exact E|right; exists y'; split; [right; exact Hy'|exact E]].
     - destruct (IH (mp_step st y)) as [E|[y' [Hy' E]]].
-      + rewrite Es. lra.
-      + right. exists y. split; [left; reflexivity|]. rewrite E, Es. split; [reflexivity|exact Hw].
+      + right. exists y. split; [left; reflexivity|]. rewrite E, Es. reflexivity.
       + right. exists y'. split; [right; exact Hy'|exact E]. }
-  intros E. destruct (G ys (empty_point, 0)) as [E0|[y [Hy [Ey Hw]]]].
-  - cbn [snd]. lra.
+  intros E. destruct (G ys (empty_point, 0)) as [E0|[y [Hy Ey]]].
   - rewrite E0 in E. discriminate.
-  - exists y. split; [exact Hy|]. split; [rewrite Ey; reflexivity|exact Hw].
-Qed.
-
-(* a fall-back result has width 0: a chosen member has a regular row *)
-Lemma positive_width_regular y : 0 < snd (point_on_area y) -> row_regular y = true.
-Proof.
-  unfold point_on_area, row_regular. destruct (poly_rings y) as [|sh rs]; [cbn; lra|].
-  destruct (line_pts sh) as [|p0 pr]; [cbn; lra|].
-  destruct (poly_row y) as [ri|]; [|cbn; lra].
-  destruct (xs_regular (r_xs ri)); [reflexivity|cbn; lra].
+  - exists y. split; [exact Hy|]. rewrite Ey. reflexivity.
 Qed.
 
 Theorem pos_mpoly_interior_lemma ct ys p :
-  (forall y, In y ys -> row_regular y = true -> row_hyps y = true /\ valid_nesting y) ->
+  (forall y, In y ys -> poly_empty y = false -> row_hyps y = true /\ valid_nesting y) ->
   point_xy (mpoly_pos ys) = Some p ->
   locate (GMPoly ct ys) p = Interior.
 Proof.
-  intros Hh E. destruct (mpoly_pos_member ys p E) as [y [Hy [Ey Hw]]].
-  pose proof (positive_width_regular y Hw) as Hreg. destruct (Hh y Hy Hreg) as [Hrow Hnest].
+  intros Hh E. destruct (mpoly_pos_member ys p E) as [y [Hy Ey]]. rewrite Ey in E.
+  assert (Hne : poly_empty y = false).
+  { destruct y as [c [|r rs]]; [discriminate E|reflexivity]. }
+  destruct (Hh y Hy Hne) as [Hrow Hnest].
   unfold row_hyps in Hrow. destruct (poly_row y) as [ri|] eqn:Er; [|discriminate].
   apply andb_prop in Hrow. destruct Hrow as [Hrow Hnd]. apply andb_prop in Hrow. destruct Hrow as [Hxr Hsp].
-  rewrite Ey in E.
   destruct (pos_areal_interior_lemma y ri p Er Hxr Hsp Hnd Hnest E) as [Hint _].
   unfold locate, prep, locate_p. cbn [g_polys map pg_polys].
   assert (Hex : existsb (fun rs => rings_interior rs p) (map poly_ring_segs ys) = true).
@@ -1067,10 +1046,11 @@ Qed.
 Theorem row_shape_lemma (y : polyT Q) (ri : row_info) :
   poly_row y = Some ri ->
   snd (fst (r_bis ri)) = r_y ri /\ snd (snd (r_bis ri)) = r_y ri /\
-  r_xs ri = qsort (raw_intercepts (r_bis ri) (poly_rings y)) /\ ssorted (r_xs ri).
+  r_xs ri = isort (raw_intercepts (r_bis ri) (poly_rings y)) /\
+  (nodupq (raw_intercepts (r_bis ri) (poly_rings y)) = true -> ssorted (r_xs ri)).
 Proof.
   intros Hrow. destruct (poly_row_inv y ri Hrow) as [shell [rest [p0 [pr [x0 [x1 [_ [_ [Eb [Exs _]]]]]]]]]].
   rewrite Eb. cbn [fst snd]. repeat split; try reflexivity.
   - rewrite <- Eb. exact Exs.
-  - rewrite Exs. apply qsort_ssorted.
+  - intros Hnd. rewrite Exs, Eb. rewrite (isort_qsort _ Hnd). apply qsort_ssorted.
 Qed.
